@@ -315,6 +315,11 @@ func (ex *Exchange[H]) GetRangeByHeight(
 		),
 	)
 	defer span.End()
+	if to <= from.Height()+1 {
+		err := fmt.Errorf("header/p2p: empty range requested: from %d, to %d", from.Height(), to)
+		span.SetStatus(codes.Error, err.Error())
+		return nil, err
+	}
 	session := newSession[H](
 		ex.ctx,
 		ex.host,
